@@ -282,6 +282,24 @@ def invalid_job(args):
             ok = not valid
             what = f"get_readout_circuit raised {type(e).__name__} for the VALID stabilizer {labels}"
         out.append(("C08.invalid_input.readout", ok, f"inv-ro:{n}:{conn}:{labels}", what, rp))
+        # the validity check as it is reachable from the public constructor: Stabilizer(data, validate=True) accepts exactly the valid inputs (matrix and string form),
+        # validate() says the same, and neither modifies its input
+        try:
+            Stabilizer((R.copy(), S.copy(), ph.copy()), validate=True)
+            acc_m = True
+        except Exception:
+            acc_m = False
+        try:
+            Stabilizer(list(labels), validate=True)
+            acc_s = True
+        except Exception:
+            acc_s = False
+        try:
+            v = bool(st.validate())
+        except Exception as e:
+            v = f"raised {type(e).__name__}"
+        out.append(("C08.validate.constructor_flag", acc_m == valid and acc_s == valid and v == valid, f"inv-val:{n}:{labels}",
+                    f"{labels} (valid: {valid}): Stabilizer(matrices, validate=True) accepted: {acc_m}, Stabilizer(strings, validate=True) accepted: {acc_s}, validate() = {v}", rp))
     return out
 
 
